@@ -432,7 +432,8 @@ func init() {
 				arr := e.comp(h, name, so, true)
 				na := e.fresh("Hsort."+name, fmt.Sprintf("(Array Int %s)", so))
 				oldRow := fmt.Sprintf("(select %s %s)", arr, sv.B)
-				e.assume(fmt.Sprintf("(forall ((k Int)) (! (=> (and (<= 0 k) (< k %s)) (= (select %s (+ %s k)) (select %s (+ %s (%s k))))) :pattern ((select %s (+ %s k)))))", sv.L, na, sv.O, oldRow, sv.O, perm, na, sv.O))
+				// absolute index j of the backing array: new[j] = old[off + perm(j - off)] inside the range, unchanged outside
+				e.assume(fmt.Sprintf("(forall ((j Int)) (! (=> (and (<= %s j) (< j (+ %s %s))) (= (select %s j) (select %s (+ %s (%s (- j %s)))))) :pattern ((select %s j))))", sv.O, sv.O, sv.L, na, oldRow, sv.O, perm, sv.O, na))
 				e.assume(fmt.Sprintf("(forall ((j Int)) (! (=> (or (< j %s) (>= j (+ %s %s))) (= (select %s j) (select %s j))) :pattern ((select %s j))))", sv.O, sv.O, sv.L, na, oldRow, na))
 				e.setComp(h, name, fmt.Sprintf("(store %s %s %s)", arr, sv.B, na))
 			}
@@ -449,10 +450,22 @@ func init() {
 	reg("slices.Reverse", []string{"E.*"}, func(f *frame, in ssa.Instruction, callee *ssa.Function, args []Val, pc string, h *Heap, nm string, resT types.Type) bool {
 		e := f.e
 		c := in.(ssa.CallInstruction).Common()
-		if st, ok := under(c.Args[0].Type()).(*types.Slice); ok {
-			for _, cs := range e.elemComps(st.Elem()) {
-				e.havocHeapComp(h, cs[0])
-			}
+		st, ok := under(c.Args[0].Type()).(*types.Slice)
+		sv, ok2 := args[0].(SliceV)
+		if !ok || !ok2 {
+			e.havocAll(h)
+			return true
+		}
+		e.useQuant = true
+		for _, cs := range e.elemComps(st.Elem()) {
+			name, so := cs[0], cs[1]
+			arr := e.comp(h, name, so, true)
+			na := e.fresh("Hrev."+name, fmt.Sprintf("(Array Int %s)", so))
+			oldRow := fmt.Sprintf("(select %s %s)", arr, sv.B)
+			// new[off + k] = old[off + len-1-k]
+			e.assume(fmt.Sprintf("(forall ((j Int)) (! (=> (and (<= %s j) (< j (+ %s %s))) (= (select %s j) (select %s (- (+ %s %s %s) 1 j)))) :pattern ((select %s j))))", sv.O, sv.O, sv.L, na, oldRow, sv.O, sv.O, sv.L, na))
+			e.assume(fmt.Sprintf("(forall ((j Int)) (! (=> (or (< j %s) (>= j (+ %s %s))) (= (select %s j) (select %s j))) :pattern ((select %s j))))", sv.O, sv.O, sv.L, na, oldRow, na))
+			e.setComp(h, name, fmt.Sprintf("(store %s %s %s)", arr, sv.B, na))
 		}
 		return true
 	})
